@@ -193,6 +193,9 @@ func (conv *converter) convertRuleGroup(decl *ast.FuncDecl) *ir.RuleGroup {
 	conv.groupFuncs = conv.groupFuncs[:0]
 
 	result.Name = decl.Name.String()
+	if len(decl.Type.Params.List[0].Names) == 0 {
+		panic(conv.errorf(decl.Type.Params.List[0], "the matcher param should have a name"))
+	}
 	result.MatcherName = decl.Type.Params.List[0].Names[0].String()
 
 	if decl.Doc != nil {
@@ -285,6 +288,9 @@ func (conv *converter) expandMacro(macro *localMacroFunc, call *ast.CallExpr) ir
 	body := astcopy.Expr(macro.template)
 	expanded := astutil.Apply(body, nil, func(cur *astutil.Cursor) bool {
 		if ident, ok := cur.Node().(*ast.Ident); ok {
+			if sel, ok := cur.Parent().(*ast.SelectorExpr); ok && sel.Sel == ident {
+				return true // A field or a method name, not a param
+			}
 			arg, ok := args[ident.Name]
 			if ok {
 				cur.Replace(arg)
@@ -361,6 +367,9 @@ func (conv *converter) localDefine(assign *ast.AssignStmt) {
 	}
 	var params []string
 	for _, field := range fn.Type.Params.List {
+		if len(field.Names) == 0 {
+			panic(conv.errorf(field, "only named func params are supported"))
+		}
 		for _, id := range field.Names {
 			params = append(params, id.Name)
 		}
@@ -798,7 +807,7 @@ func (conv *converter) toStringValue(x ast.Node) (string, bool) {
 		return s, true
 	case ast.Expr:
 		typ, ok := conv.types.Types[x]
-		if !ok || typ.Type.String() != "string" {
+		if !ok || typ.Value == nil || typ.Type.String() != "string" {
 			return "", false
 		}
 		str := constant.StringVal(typ.Value)
